@@ -1,7 +1,7 @@
 (* Props/C01.v -- TextGrid save/open round trip: the text layer.
    Property theorems only; proofs are in IO/CodecProofs.v. *)
 From Coq Require Import String.
-From PraatIO Require Import IO.IoModel IO.CodecProofs IO.ShortFileProofs.
+From PraatIO Require Import IO.IoModel IO.CodecProofs IO.ShortFileProofs IO.LongFileProofs.
 Open Scope Z_scope.
 
 (* un-doubling the doubled form is the identity, for every label and name *)
@@ -74,6 +74,42 @@ Theorem C01_short_file_roundtrip tab g :
 Proof. exact (parse_short_printed tab g). Qed.
 Print Assumptions C01_short_file_roundtrip.
 
+(* long form, whole file: the regex reader applied to what the long writer printed returns the
+   textgrid span and, for every tier in order, its type, name, span and entries -- for any number of
+   tiers and entries and ANY labels (quotes, doubled quotes, newlines, '=', digits, field look-alikes
+   such as `xmin = 5`), under the decidable side condition lfile_ok: cutting the text at `item [`,
+   `intervals [`, `points [` finds exactly the writer's blocks (a label containing such a keyword is
+   what breaks it: outside the property's quantifier), names are single-line and numbers are printed
+   as digits/dots with an optional exponent.  The number, name and text fields inside a block are
+   located by proof, not by hypothesis: no field look-alike inside a name or an earlier field can
+   be matched first. *)
+Theorem C01_long_file_roundtrip tab g :
+  lfile_ok tab g = true ->
+  forallb (fun c => negb (c =? 13)%N) (print_long tab g) = true ->
+  parse_long true (print_long tab g) = Ok (rd_tg_long tab g).
+Proof. exact (parse_long_printed tab g). Qed.
+Print Assumptions C01_long_file_roundtrip.
+
+(* hence both text forms of one textgrid with trimmed names are read back as the same data *)
+Theorem C01_long_short_same_data tab g :
+  forallb (fun t => strippedb (d_name t)) (dg_tiers g) = true ->
+  rd_tg_long tab g = rd_tg tab g.
+Proof. exact (long_short_agree tab g). Qed.
+Print Assumptions C01_long_short_same_data.
+
+(* one written number / text field of an entry block, for every token and label *)
+Theorem C01_long_interval_block j N1 N2 lab trail :
+  idx j = true -> numshape N1 = true -> numshape N2 = true -> allsp trail = true ->
+  parse_long_interval (ichunk j N1 N2 lab ++ trail) = Ok (RI N1 N2 (strip lab)).
+Proof. exact (parse_ichunk j N1 N2 lab trail). Qed.
+Print Assumptions C01_long_interval_block.
+
+Theorem C01_long_point_block j N1 lab trail :
+  idx j = true -> numshape N1 = true -> allsp trail = true ->
+  parse_long_point true (pchunk j N1 lab ++ trail) = Ok (RP N1 (strip lab)).
+Proof. exact (parse_pchunk j N1 lab trail). Qed.
+Print Assumptions C01_long_point_block.
+
 (* the reader before the repair of F2 did not un-double point marks: witness *)
 Theorem C01_long_point_mark_legacy_refuted :
   exists el, parse_long_point false el = Ok (RP [49%N] [34%N; 34%N])
@@ -92,6 +128,14 @@ Example C01_short_file_example :
   dg_tiers g <> [] /\ chunk_ok tab g = true /\ forallb (fun c => negb (c =? 13)%N) (print_short tab g) = true
   /\ forallb (tier_ok tab) (dg_tiers g) = true /\ parse_short (print_short tab g) = Ok (rd_tg tab g).
 Proof. vm_compute. repeat split; try reflexivity. discriminate. Qed.
+
+Example C01_long_file_example :
+  let tab := [(0, mkNum true (T "0") (T "0.0")); (1, mkNum false (T "1") (T "1.5")); (2, mkNum false (T "2") (T "2.25e-05"))]%Z in
+  let g := mkDTG 0 2 [mkDT true (T "a ""b"" xmin = 3") 0 2 [DI 0 1 [34%N; 34%N; 10%N; 61%N; 55%N]; DI 1 2 (T "xmax = 7 ")];
+                      mkDT false (T "p") 0 2 [DP 1 [34%N]]]%Z in
+  lfile_ok tab g = true /\ forallb (fun c => negb (c =? 13)%N) (print_long tab g) = true
+  /\ parse_long true (print_long tab g) = Ok (rd_tg_long tab g).
+Proof. vm_compute. repeat split; reflexivity. Qed.
 
 (* non-vacuity *)
 Example C01_example :
